@@ -14,8 +14,8 @@
 //!   require `project(follower) == project(leader)`.
 //!
 //! A divergence is attributed to the operation that made it: a field is charged to the last operation
-//! of a history iff it diverges there and did not already diverge with the same two values at the end
-//! of the parent history (which is itself an explored history).
+//! of a history iff it diverges there and did not already diverge at the end of the parent history
+//! (which is itself an explored history, where the field is charged to whoever made it diverge).
 
 #[path = "c38_mock.rs"]
 mod mock;
@@ -244,7 +244,8 @@ fn field_class(path: &str) -> &'static str {
     match seg.as_slice() {
         ["workers", _] => "worker_set",
         ["workers", _, "status"] => "status",
-        ["workers", _, "assigned_pipelines"] => "assignment",
+        // the per-worker load bookkeeping: every commit function writes the two together
+        ["workers", _, "assigned_pipelines"] | ["workers", _, "capacity", "pipelines_running"] => "worker_load",
         ["workers", _, "capacity", ..] => "capacity",
         ["groups", _] => "group_set",
         ["groups", _, "status"] => "group_status",
@@ -501,7 +502,9 @@ impl World {
         }
         let resp = rb.reply(&self.routes).await;
         let status = resp.status().as_u16();
-        self.http_log.push((format!("{method} {path}"), status));
+        // group ids are uuids: keep them out of the log that the determinism gate compares
+        let shown: Vec<String> = path.split('/').map(|seg| if seg.len() == 36 && seg.matches('-').count() == 4 { "{group-id}".to_string() } else { seg.to_string() }).collect();
+        self.http_log.push((format!("{method} {}", shown.join("/")), status));
         (status, serde_json::from_slice(resp.body()).unwrap_or(J::Null))
     }
 
@@ -803,11 +806,11 @@ fn judge(half: Half, ops: &[Op], parent: Option<&Exec>, e: &Exec) -> Vec<Finding
     if d.is_empty() {
         return vec![];
     }
-    let inherited = |path: &str, a: &Option<String>, b: &Option<String>| -> bool {
-        let Some(p) = parent else { return false };
-        diff(&p.pre, &p.post).iter().any(|(pp, pa, pb)| pp == path && pa == a && pb == b)
-    };
-    let fresh: Vec<&(String, Option<String>, Option<String>)> = d.iter().filter(|(p, a, b)| !inherited(p, a, b)).collect();
+    // a field that already diverged at the end of the parent history was made to diverge by an earlier
+    // operation (and is reported at the shorter history); the last operation is charged with the fields
+    // that were consistent before it and diverge after it
+    let parent_diff: BTreeSet<String> = parent.map(|p| diff(&p.pre, &p.post).into_iter().map(|(p, _, _)| p).collect()).unwrap_or_default();
+    let fresh: Vec<&(String, Option<String>, Option<String>)> = d.iter().filter(|(p, _, _)| !parent_diff.contains(p)).collect();
     let mut by_sig: BTreeMap<String, Vec<&(String, Option<String>, Option<String>)>> = BTreeMap::new();
     let empty = Exec { pre: Arc::new(Flat::new()), post: Arc::new(Flat::new()), view: View::default(), last_status: None, last_phases: vec![], mock_calls: vec![], http_log: vec![] };
     for f in fresh {
@@ -868,9 +871,25 @@ struct Item {
 }
 
 struct Totals {
+    /// order-independent fingerprint of every (history, view before sync, view after sync)
+    fingerprint: u64,
     states: HashSet<u64>,
     transitions: u64,
     traces: u64,
+    /// signature -> smallest violating history (re-run outside the explorer before reporting)
+    mins: BTreeMap<String, (Half, Vec<Op>)>,
+}
+
+fn sample_json(half: Half, ops: &[Op], e: &Exec, findings: &[Finding]) -> J {
+    json!({
+        "half": half.name(),
+        "history": names(ops),
+        "http": e.http_log.iter().map(|(p, s)| format!("{p} -> {s}")).collect::<Vec<_>>(),
+        "worker_calls": e.mock_calls,
+        "view_before_sync": flat_json(&e.pre),
+        "differences_after_sync": diff(&e.pre, &e.post).iter().map(|(p, a, b)| format!("{p}: {} -> {}", a.clone().unwrap_or_else(|| "absent".into()), b.clone().unwrap_or_else(|| "absent".into()))).collect::<Vec<_>>(),
+        "charged_to_last_operation": findings.iter().map(|f| f.sig.clone()).collect::<Vec<_>>(),
+    })
 }
 
 fn intern(pool: &mut HashMap<u64, Arc<Flat>>, f: &Arc<Flat>) -> Arc<Flat> {
@@ -880,6 +899,7 @@ fn intern(pool: &mut HashMap<u64, Arc<Flat>>, f: &Arc<Flat>) -> Arc<Flat> {
 fn explore(half: Half, max_depth: usize, args: &Args, deadline: &mc::Deadline, rep: &mut Report, totals: &mut Totals) {
     let root = run_history(half, &[]).unwrap_or_else(|e| mc::machinery_error(&format!("{}: empty history failed: {e}", half.name())));
     for f in judge(half, &[], None, &root) {
+        totals.mins.entry(f.sig.clone()).or_insert_with(|| (half, vec![]));
         rep.violation(mc::Violation { sig: f.sig, desc: f.desc, case: case_json(half, &[], &f.field), size: 0 });
     }
     rep.evaluations += 1;
@@ -887,6 +907,10 @@ fn explore(half: Half, max_depth: usize, args: &Args, deadline: &mc::Deadline, r
     totals.states.insert(mc::hash_of(&*root.pre));
     let mut pool: HashMap<u64, Arc<Flat>> = HashMap::new();
     let mut level: Vec<(Vec<Op>, Arc<Exec>)> = vec![(vec![], Arc::new(root))];
+    let mut have_divergent = false;
+    for k in ["histories_ending_with_an_unhealthy_worker", "ticks_reaching_failover", "ticks_reaching_reconcile", "ticks_reaching_rebalance", "ticks_that_left_a_timed_out_worker_ready"] {
+        rep.add_count(k, 0);
+    }
     for depth in 1..=max_depth {
         let mut items: Vec<Item> = Vec::new();
         for (h, e) in &level {
@@ -900,6 +924,8 @@ fn explore(half: Half, max_depth: usize, args: &Args, deadline: &mc::Deadline, r
         }
         rep.set(&format!("histories_{}_length_{}", half.name(), depth), json!(items.len()));
         let results: Mutex<Vec<(usize, Exec)>> = Mutex::new(Vec::new());
+        let mins: Mutex<BTreeMap<String, usize>> = Mutex::new(BTreeMap::new());
+        let samples: Mutex<BTreeMap<(bool, usize), J>> = Mutex::new(BTreeMap::new());
         let keep = depth < max_depth;
         let (acc, done) = mc::par_indices(items.len() as u64, args.threads, 4, |i, acc: &mut Acc| {
             if deadline.expired() {
@@ -919,11 +945,38 @@ fn explore(half: Half, max_depth: usize, args: &Args, deadline: &mc::Deadline, r
             acc.outcome(&(&*e.pre, &*e.post));
             let findings = judge(half, &it.ops, Some(&it.parent), &e);
             for f in &findings {
-                acc.viol.add(f.sig.clone(), f.desc.clone(), case_json(half, &it.ops, &f.field), it.ops.len());
+                // size = (length, position in the enumeration): the reported minimal history is the same in every run
+                acc.viol.add(f.sig.clone(), f.desc.clone(), case_json(half, &it.ops, &f.field), it.ops.len() * 10_000_000 + i as usize);
+                let mut m = mins.lock().unwrap();
+                let cur = m.entry(f.sig.clone()).or_insert(i as usize);
+                *cur = (*cur).min(i as usize);
             }
-            let want_sample = (findings.is_empty() && it.ops.len() == max_depth && it.ops.contains(&Op::Tick) && it.ops.contains(&Op::DeployG1)) || (!findings.is_empty() && it.ops.len() <= 2);
-            if want_sample {
-                acc.sample(|| json!({"half": half.name(), "history": names(&it.ops), "http": e.http_log.iter().map(|(p, s)| format!("{p} -> {s}")).collect::<Vec<_>>(), "worker_calls": e.mock_calls, "view_before_sync": flat_json(&e.pre), "differences_after_sync": diff(&e.pre, &e.post).iter().map(|(p, a, b)| format!("{p}: {a:?} -> {b:?}")).collect::<Vec<_>>(), "charged_to_last_operation": findings.iter().map(|f| f.sig.clone()).collect::<Vec<_>>()}));
+            // coverage counters
+            if e.view.workers.values().any(|w| w.0 == "unhealthy") {
+                acc.count("histories_ending_with_an_unhealthy_worker", 1);
+            }
+            if it.ops.last() == Some(&Op::Tick) {
+                for ph in ["failover", "reconcile", "rebalance"] {
+                    if e.last_phases.iter().any(|(n, _)| *n == ph) {
+                        acc.count(&format!("ticks_reaching_{ph}"), 1);
+                    }
+                }
+                if it.parent.view.workers.iter().any(|(id, w)| w.0 == "ready" && w.1 && e.view.workers.get(id).is_some_and(|x| x.0 == "ready")) {
+                    acc.count("ticks_that_left_a_timed_out_worker_ready", 1);
+                }
+            }
+            // one consistent and one divergent sample history per half (the first of the deepest level)
+            let consistent = diff(&e.pre, &e.post).is_empty();
+            if (consistent && it.ops.len() == max_depth) || (!findings.is_empty() && !have_divergent) {
+                let interesting = it.ops.contains(&Op::Tick) && (it.ops.contains(&Op::DeployG1) || max_depth < 3) && it.ops.iter().any(|o| matches!(o, Op::Register(_)));
+                if (consistent && interesting) || !findings.is_empty() {
+                    let mut sm = samples.lock().unwrap();
+                    let key = (consistent, i as usize);
+                    if sm.keys().filter(|k| k.0 == consistent).all(|k| k.1 > i as usize) {
+                        sm.retain(|k, _| k.0 != consistent);
+                        sm.insert(key, sample_json(half, &it.ops, &e, &findings));
+                    }
+                }
             }
             results.lock().unwrap().push((i as usize, e));
             true
@@ -932,10 +985,20 @@ fn explore(half: Half, max_depth: usize, args: &Args, deadline: &mc::Deadline, r
         res.sort_by_key(|(i, _)| *i);
         totals.transitions += acc.counts.get("operations_executed").copied().unwrap_or(0);
         totals.traces += acc.evaluations;
-        for (_, e) in &res {
+        for (i, e) in &res {
             totals.states.insert(mc::hash_of(&*e.pre));
+            totals.fingerprint = totals.fingerprint.wrapping_add(mc::hash_of(&(half.name(), names(&items[*i].ops), &*e.pre, &*e.post)));
         }
         rep.absorb(acc);
+        for (sig, i) in mins.into_inner().unwrap() {
+            totals.mins.entry(sig).or_insert_with(|| (half, items[i].ops.clone()));
+        }
+        for ((consistent, _), sj) in samples.into_inner().unwrap() {
+            if !consistent {
+                have_divergent = true;
+            }
+            rep.sample(sj);
+        }
         if !done {
             rep.cap_hit(&format!("wall cap during {} histories of length {depth} (all shorter lengths completed)", half.name()));
             return;
@@ -975,6 +1038,8 @@ fn determinism_gate(half: Half, depth: usize) {
             vec![Op::Register(1)],
             vec![Op::Register(1), Op::DeployG3, Op::Register(2), Op::Tick],
             vec![Op::Register(1), Op::Register(2), Op::DeployG1, Op::MigrateP1, Op::Drain(2)],
+            // one operation that migrates pipelines of two groups (the coordinator walks hash maps)
+            vec![Op::Register(1), Op::DeployG3, Op::DeployG1, Op::Register(2), Op::Drain(1)],
             last_history(half, depth),
         ],
         Half::Follower => vec![vec![Op::Register(1)], vec![Op::Register(1), Op::DeployG1, Op::Tick], last_history(half, depth)],
@@ -998,6 +1063,25 @@ fn determinism_gate(half: Half, depth: usize) {
     }
 }
 
+/// Every reported signature's smallest history is re-run outside the explorer (whole prefix chain, fresh
+/// objects); a violation that does not reproduce is a machinery problem, never a verdict.
+fn confirm(totals: &Totals) {
+    for (sig, (half, ops)) in &totals.mins {
+        let mut parent: Option<Exec> = None;
+        let mut found = false;
+        for n in ops.len().saturating_sub(1)..=ops.len() {
+            let e = run_history(*half, &ops[..n]).unwrap_or_else(|e| mc::machinery_error(&format!("confirmation run failed: {e}")));
+            if n == ops.len() {
+                found = judge(*half, ops, if ops.is_empty() { None } else { parent.as_ref() }, &e).iter().any(|f| f.sig == *sig);
+            }
+            parent = Some(e);
+        }
+        if !found {
+            mc::machinery_error(&format!("violation {sig} at history {:?} did not reproduce outside the explorer", names(ops)));
+        }
+    }
+}
+
 fn self_test() {
     // projection difference and classification on hand-made cases
     let mut a = Flat::new();
@@ -1011,7 +1095,10 @@ fn self_test() {
     let c = Flat::new();
     assert_eq!(diff(&a, &c), vec![("workers/w1".to_string(), Some("present".to_string()), None)]);
     assert_eq!(field_class("workers/w1"), "worker_set");
-    assert_eq!(field_class("workers/w1/capacity/pipelines_running"), "capacity");
+    assert_eq!(field_class("workers/w1/capacity/pipelines_running"), "worker_load");
+    assert_eq!(field_class("workers/w1/assigned_pipelines"), "worker_load");
+    assert_eq!(field_class("workers/w1/capacity/max_pipelines"), "capacity");
+    assert_eq!(field_class("workers/w1/status"), "status");
     assert_eq!(field_class("groups/g1/placements/p1/worker"), "placement");
     assert_eq!(field_class("groups/g1"), "group_set");
     assert_eq!(field_class("connectors/c1/params"), "connector");
@@ -1065,17 +1152,19 @@ pub fn run(args: &Args) -> ! {
         replay(&case, &mut rep);
         rep.finish();
     }
-    let (d1, d2) = (args.tier.pick(4usize, 5usize), args.tier.pick(2usize, 3usize));
+    let (d1, d2) = (args.tier.pick(4usize, 5usize), args.tier.pick(3usize, 4usize));
     determinism_gate(Half::Single, d1);
     determinism_gate(Half::Follower, d2);
     let deadline = mc::Deadline::after(Duration::from_secs(args.tier.pick(36, 1120)));
-    let mut totals = Totals { states: HashSet::new(), transitions: 0, traces: 0 };
+    let mut totals = Totals { fingerprint: 0, states: HashSet::new(), transitions: 0, traces: 0, mins: BTreeMap::new() };
     // the smaller half first so that a wall cap can only cut the deepest level of the large half
     explore(Half::Follower, d2, args, &deadline, &mut rep, &mut totals);
     explore(Half::Single, d1, args, &deadline, &mut rep, &mut totals);
+    confirm(&totals);
     rep.states = totals.states.len() as u64;
     rep.transitions = totals.transitions;
     rep.traces = totals.traces;
+    rep.set("outcome_fingerprint", json!(format!("{:016x}", totals.fingerprint)));
     rep.set("op_alphabet", json!(ALPHABET.iter().map(|o| o.name()).collect::<Vec<_>>()));
     rep.rule = format!(
         "Explicit-state search, state = history, every history replayed on fresh real objects (real openraft node(s) over MemStore, real Coordinator with the Raft handle attached as the CLI does, real HTTP handlers via warp::test, loopback mock worker, mirrored health tick): all histories of length <= {d1} over the {}-operation alphabet on a single-node Raft, pruned only by enabledness (operations the real code answers with an error and no state change, idempotent repeats, unpinned deploys with more than one placement candidate); oracle after every history: project(coordinator) is a fixpoint of the real sync_from_raft(). All histories of length <= {d2} on the leader of a 3-node in-process cluster; oracle: after quiescence project(follower after its sync) == project(leader). A divergent field is charged to the last operation iff it did not already diverge with the same values at the end of the parent history. Non-trivial = the last operation changed the projected view or what the sync makes of it. states = distinct projected coordinator views; transitions = operations executed; traces = histories replayed.",
@@ -1086,6 +1175,6 @@ pub fn run(args: &Args) -> ! {
     rep.assume("the health tick is a mirror of the inline loop in varpulis-cli/src/main.rs; its method-call skeleton and landmarks are compared with the source text at start-up (machinery error on mismatch)");
     rep.assume("clock = back-dating WorkerNode.last_heartbeat by 20 s (timeout 15 s); the tokio clock is paused and never advances (auto-advance inhibited while the coordinator waits on loopback I/O); openraft timers are disabled, the harness fires the leader heartbeat in the 3-node half");
     rep.assume("HashMap iteration order is kept out of choices: g1/p1 is pinned with worker_affinity, the unpinned group g3 is deployed only when exactly one worker is available, failover/drain/rebalance targets have a single candidate with two workers, and the interchangeable pipelines u1..u3 are projected to their class");
-    rep.assume("mock worker: deploy 200 with ids in call order (500 after `workers_start_refusing_deploys`), checkpoint 404 (best effort in the coordinator), restore/delete 200; heartbeats report the mock's real pipeline count");
+    rep.assume("mock worker: deploy 200 with id `<pipeline>@<worker>.<n>` (500 after `workers_start_refusing_deploys`), checkpoint 404 (best effort in the coordinator), restore/delete 200; heartbeats report the mock's real pipeline count");
     rep.finish();
 }
